@@ -236,6 +236,7 @@ def apiOp (op : String) (args : List String) : Option String :=
       | none => "panic"
       | some (q, none) => s!"ok {q}"
       | some (q, some e) => s!"err:{e.name} {q}")
+  | "countWhitespace", [d] => do let d ← hexToBytes d; pure (toString (countWhitespace d))
   | "fpReadFloat", [d] => do
     let d ← hexToBytes d
     let r := FP.readFloat d
